@@ -29,7 +29,7 @@ RULE = ('Expressions are drawn recursively from the grammar (depth<=5, 7 literal
         'well-formed) count as non-trivial too. Distinct = distinct SHA-1 of the canonical case JSON.')
 ASSUMPTIONS = [
     'Cases where ordinary arithmetic is undefined or float-representation dependent are generated but not asserted '
-    '(zero divisor, % with a negative operand, shift count outside 0..63 or of a negative value, bitwise/BYTEn on a '
+    '(zero divisor, % with a negative operand, shift count outside 0..256 or of a negative value, bitwise/BYTEn on a '
     'non-integer, intermediates after / or % not exactly representable as IEEE double); they are counted in '
     'class_histogram as undefined:*',
     'trailing-H hexadecimal literals are written with a leading decimal digit (the documented form, e.g. 08FH)',
